@@ -292,6 +292,13 @@ func (c *Ctx) oauthPIDCodec(rule string) {
 	for _, call := range CallsTo(ps, "strings.Split") {
 		sep, _ = constArgStr(call, 1)
 	}
+	// SplitN with a bound above the writer's segment count (or negative) splits
+	// the same inputs into three segments as Split does
+	for _, call := range CallsTo(ps, "strings.SplitN") {
+		if n, isC := ConstInt(Arg(call, 2)); isC && (n < 0 || n > 3) {
+			sep, _ = constArgStr(call, 1)
+		}
+	}
 	if format == "" || sep == "" {
 		r.Unknown(rule, FuncName(mk), "format/separator", "-", "writer format or reader separator not constant")
 		return
@@ -355,7 +362,7 @@ func (c *Ctx) oauthPIDCodec(rule string) {
 	pn := FuncName(ps)
 	// … of the identifier as it was handed in: a decoding or normalising step in
 	// front of the split rewrites identifiers the writer produced verbatim
-	for _, call := range CallsTo(ps, "strings.Split") {
+	for _, call := range CallsTo(ps, "strings.Split", "strings.SplitN") {
 		_, isParam := Arg(call, 0).(*ssa.Parameter)
 		r.Check(isParam, rule, pn, "splits the identifier verbatim", posf(c, call), "the text split is the parameter itself", "the identifier is transformed before it is split ("+SafeString(Arg(call, 0))+"): Parse(Make(provider, uid)) no longer returns (provider, uid) for every uid, so the session's identifier resolves to another pair than the provider reported")
 	}
